@@ -605,6 +605,13 @@ func (c *Ctx) c02NoRawBytesInText() {
 					return true
 				}
 			}
+		case *ssa.Parameter:
+			// a parameter of a function of the scope: what its callers pass
+			for _, a := range c.argsOfParam(x) {
+				if rawByte(core.NewLin(c.P, a.Parent(), c.modSets(), nil), a.v, depth+2) {
+					return true
+				}
+			}
 		}
 		return false
 	}
@@ -627,6 +634,12 @@ func (c *Ctx) c02NoRawBytesInText() {
 		case *ssa.Phi:
 			for _, e := range x.Edges {
 				if rawString(l, e, depth+1) {
+					return true
+				}
+			}
+		case *ssa.Parameter:
+			for _, a := range c.argsOfParam(x) {
+				if rawString(core.NewLin(c.P, a.Parent(), c.modSets(), nil), a.v, depth+2) {
 					return true
 				}
 			}
@@ -751,4 +764,33 @@ func (c *Ctx) c02NoRawBytesInText() {
 	if nRaw == 0 {
 		R.OK("C02.R6", "no-raw-bytes-in-text", "-", "message text never contains raw client bytes (which may be zero)", sprintf("%d text-producing call sites, none takes a raw message byte / a string converted from raw message bytes verbatim", nText))
 	}
+}
+
+// argAt is an argument value at one call site.
+type argAt struct {
+	v    ssa.Value
+	site ssa.CallInstruction
+}
+
+func (a argAt) Parent() *ssa.Function { return a.site.Parent() }
+
+// argsOfParam lists, for a parameter of a function of the scope, the values passed at its static call sites.
+func (c *Ctx) argsOfParam(p *ssa.Parameter) []argAt {
+	fn := p.Parent()
+	if fn == nil || !c.P.InScope(fn) {
+		return nil
+	}
+	idx := -1
+	for i, q := range fn.Params {
+		if q == p {
+			idx = i
+		}
+	}
+	var out []argAt
+	for _, site := range c.P.CallSitesOf(fn) {
+		if a := site.Common().Args; idx >= 0 && idx < len(a) && !site.Common().IsInvoke() {
+			out = append(out, argAt{a[idx], site})
+		}
+	}
+	return out
 }
